@@ -6,6 +6,7 @@ class Engine(DbEngine):
     prop = 'C05'
     profiles = ('debug', 'release')
     weights = {'new': 5, 'addr': 2, 'delete': 1, 'remove': 0.7, 'giftwrap': 0.3, 'query': 9, 'qown': 2, 'resubmit': 0.3, 'ghost': 0.5}
+    ghost_sweep = True
     aspects = {'query', 'store.result'}
     quick = (200, 40)
     thorough = (4000, 90)
